@@ -262,8 +262,13 @@ open Tongo.PoolSM in
 /-- `selectmv.run`: members `alive:seqno:rtt`, moves `m<k>:<conn>:<seqno>` = SetMasterHead(conn, seqno) just before
 the k-th MasterHead() call of the refresh. -/
 def selectMoving (v : Variant) (st : Strategy) (prev : Int) (args : List String) : String :=
-  let mem := args.filter (fun x => !x.startsWith "m")
+  let mem := args.filter (fun x => !x.startsWith "m" && !x.startsWith "r")
   let moves := (args.filter (fun x => x.startsWith "m")).map fun x => ((x.drop 1).toString.splitOn ":").map (·.toNat?.getD 0)
+  -- r<i>:<conn>:<rtt>: the round-trip time of <conn> changes just before the selection loop looks at member i
+  let rmoves := (args.filter (fun x => x.startsWith "r")).map fun x => ((x.drop 1).toString.splitOn ":").map (·.toNat?.getD 0)
+  let rtts (k : Nat) (s : State) : State :=
+    (rmoves.filter (fun m => m.getD 0 0 == k)).foldl (fun (s : State) m =>
+      (step v s (.setRtt (m.getD 1 0) (Int.ofNat (m.getD 2 0)))).getD s) s
   match connsOfText mem with
   | none => "bad-op"
   | some cs =>
@@ -282,6 +287,7 @@ def selectMoving (v : Variant) (st : Strategy) (prev : Int) (args : List String)
     let pass1 := (List.range n).foldl (fun (o : Option State) k => o.bind (readStep k .ubRead)) (runTrace v s0 [.tick, .ubLock])
     let pass1 := pass1.bind fun s => runTrace v s [.ubRead]
     let pass2 := (List.range n).foldl (fun (o : Option State) k => o.bind fun s =>
+      let s := rtts k s
       if v.oneSnapshot then runTrace v s [.ubSel] else readStep (n + k) .ubSel s) pass1
     match pass2.bind fun s => runTrace v s [.ubSet] with
     | some s => s!"ok {(match s.best with | none => (-1 : Int) | some c => c)}"
